@@ -31,7 +31,7 @@ COMPONENTS = {"real": ["ipv8.requestcache.RequestCache/NumberCache/RandomNumberC
 ASSUMPTIONS = ["single-threaded use of RequestCache (its locks are exercised without contention)",
                "asyncio call_soon FIFO and Task cancellation semantics are trusted"]
 REACH = ["race_pop_vs_expiry", "reentrant_pop", "reentrant_add", "shutdown_with_outstanding", "dup_add_refused",
-         "pop_after_timeout_keyerror", "readd_same_object", "timeout_fired", "future_completed_on_timeout", "timeout_with_user_completed_future", "handler_hit", "handler_miss"]
+         "pop_after_timeout_keyerror", "readd_same_object", "timeout_fired", "future_completed_on_timeout", "timeout_with_user_completed_future", "handler_raised_on_claimed_response", "handler_reused_identity", "handler_hit", "handler_miss"]
 
 DELAYS = [0.5, 1.0, 1.0, 2.0, 10.0]
 IDS = [("a", 1), ("a", 2), ("b", 1), ("b", 2), ("retrievable", 7)]
@@ -55,6 +55,8 @@ def _random_case(seed: int) -> dict:
         t = max(0.0, t)
         ident = rng.choice(IDS)
         op = {"t": round(t, 7), "op": kind, "id": list(ident)}
+        if kind == "handler":
+            op["hv"] = rng.choice([None, None, "raise", "follow"])
         if kind in ("add", "ptadd"):
             op["delay"] = rng.choice(DELAYS) if kind == "add" else rng.choice([0.0, 0.1, 1.0])
             op["fut"] = rng.choice([None, None, "value", "exc", "two"])
@@ -232,6 +234,19 @@ def execute(case: dict) -> dict:  # noqa: C901, PLR0915
         def on_response(self, peer, payload, cache) -> None:  # noqa: ANN001
             self.hits.append(cache)
 
+        @retrieve_cache(Tracked)
+        def on_response_raises(self, peer, payload, cache) -> None:  # noqa: ANN001
+            # a handler that fails on the (claimed) response
+            self.hits.append(cache)
+            msg = "handler failed"
+            raise ValueError(msg)
+
+        @retrieve_cache(Tracked)
+        def on_response_follow_up(self, peer, payload, cache) -> None:  # noqa: ANN001
+            # a handler that immediately issues the follow-up request under the identity it has just been answered on
+            self.hits.append(cache)
+            self.follow = do_add(cache.ident, 1.0, None, None, None, "follow-up")
+
     host = Host()
 
     class P:
@@ -381,14 +396,23 @@ def execute(case: dict) -> dict:  # noqa: C901, PLR0915
         elif kind == "handler":
             before = len(host.hits)
             exp = model.get(("retrievable", ident[1]))
-            host.on_response(None, P(ident[1]))
+            hv = op.get("hv")
+            if exp is not None:
+                # (the model claims the request before the handler body runs: a follow-up add inside the handler finds the identity free)
+                exp.resolved = "popped"
+                model.pop(("retrievable", ident[1]), None)
+            try:
+                (host.on_response_raises if hv == "raise" else host.on_response_follow_up if hv == "follow" else host.on_response)(
+                    None, P(ident[1]))
+            except ValueError:
+                c.probe("handler_raised_on_claimed_response")
+            if hv == "follow" and exp is not None:
+                c.probe("handler_reused_identity")
             hit = len(host.hits) > before
             if hit != (exp is not None) or (hit and host.hits[-1] is not exp):
                 c.violate("claim", "retrieve_cache_mismatch", f"handler for {ident[1]} hit={hit} outstanding={exp is not None}")
             if hit:
                 c.probe("handler_hit")
-                exp.resolved = "popped"
-                model.pop(("retrievable", ident[1]), None)
             else:
                 c.probe("handler_miss")
             log.append(("handler", ident[1], hit))
